@@ -89,6 +89,10 @@ func judgeC22(c SrvCase) []Violation {
 			p = join(o.Dir, o.Name)
 		}
 		f := files[p]
+		prevLen := 0
+		if f != nil {
+			prevLen = len(f.cur)
+		}
 		// a request that may modify bytes withdraws the guarantee for them from the moment it starts
 		switch o.Kind {
 		case "write":
@@ -125,8 +129,41 @@ func judgeC22(c SrvCase) []Violation {
 				}
 			}
 		}
+		shrunk := false
+		if o.Kind == "write" && o.Mask == shrinkXfer {
+			// an operator lowers TransferSize (runtime tuning, lock-free by design) while this WRITE is between its own
+			// size check and the backend write: the write may be cut short, and the reply must say so. The model has no
+			// mid-request tuning change, so the trace ends here.
+			if _, ok := w.handleFor(o.Dir, rootCred()); ok {
+				w.flushTrace()
+				w.noTrace = true
+				base := w.fs.gate
+				w.fs.gate = func(call string) {
+					if !shrunk {
+						shrunk = true
+						w.srv.NFS.UpdateTuningOptions(func(t *absnfs.TuningOptions) { t.TransferSize = 4 })
+					}
+					base(call)
+				}
+				defer func() { w.fs.gate = base }()
+			}
+		}
 		r := w.do(o)
 		w.fs.fault = nil
+		if shrunk {
+			w.srv.NFS.UpdateTuningOptions(func(t *absnfs.TuningOptions) { t.TransferSize = 65536 })
+		}
+		if o.Kind == "write" && f != nil && o.Off < 1<<20 {
+			// the file is as long as before, or reaches the end of what the reply says was written (a short or a
+			// refused write extends it no further)
+			end := prevLen
+			if !r.NoHandle && !r.Res.Bad && r.ok() && int(o.Off)+int(r.Res.Count) > end && int(r.Res.Count) <= len(o.Data) {
+				end = int(o.Off) + int(r.Res.Count)
+			}
+			if end < len(f.cur) {
+				f.cur, f.sure = f.cur[:end], f.sure[:end]
+			}
+		}
 		if r.NoHandle || r.Res.Bad {
 			checkPoint("after " + curOp)
 			continue
@@ -194,6 +231,9 @@ func judgeC22(c SrvCase) []Violation {
 
 var crashPointsSeen int
 
+// shrinkXfer marks a WRITE during which TransferSize is lowered to 4 (SOp.Mask is otherwise unused by WRITE)
+const shrinkXfer = 0x5123
+
 // faultOpenW marks a COMMIT during which the backend refuses write-mode opens (SOp.Mask is otherwise unused by COMMIT)
 const faultOpenW = 0xfa17
 
@@ -214,7 +254,11 @@ func genC22(rng *rand.Rand, n int) SrvCase {
 			c.Ops = append(c.Ops, SOp{Kind: "create", Dir: "/", Name: name, How: uint32(rng.Intn(2))})
 		case k < 7:
 			st := uint32(rng.Intn(3))
-			c.Ops = append(c.Ops, SOp{Kind: "write", Dir: "/" + name, Off: uint64(rng.Intn(24)), Data: randBytes(rng, 1+rng.Intn(12)), Stable: &st})
+			o := SOp{Kind: "write", Dir: "/" + name, Off: uint64(rng.Intn(24)), Data: randBytes(rng, 1+rng.Intn(12)), Stable: &st}
+			if rng.Intn(8) == 0 {
+				o.Mask = shrinkXfer
+			}
+			c.Ops = append(c.Ops, o)
 		case k < 8:
 			sz := uint64(rng.Intn(20))
 			o := SOp{Kind: "setattr", Dir: "/" + name, Sa: Sattr{Size: &sz}}
